@@ -107,7 +107,9 @@ var storeAlphabet = []storeMember{
 	{"tsa:t:", "name-unsafe"},
 	{"ca:a\n", "name-unsafe"},
 	{"ca:a\x00", "name-unsafe"},
-	{"ca:\u00e4", "name-non-ascii"}, // unstated: a letter outside ASCII
+	{"ca:\u00e4", "name-non-ascii"},           // unstated: a letter outside ASCII
+	{"ca:v\u0430lid-store", "name-non-ascii"}, // Cyrillic homoglyph of "valid-store": a legal, separator-free file name everywhere
+	{"tsa:store-\u0661", "name-non-ascii"},    // a decimal digit outside ASCII
 	{"ca:.", "name-dot"},
 	{"ca:..", "name-dot"},
 	{"tsa:..", "name-dot"},
@@ -229,7 +231,7 @@ var unstatedRules = map[string]string{
 	"identity-alternative-spelling":     "S for ST, other attribute order, blank after the comma: whether they parse and what they overlap with is not stated",
 	"identity-wildcard-repeated":        "'*' listed twice: the wildcard has no company other than itself",
 	"store:name-blank":                  "'file-name-safe' does not clearly exclude a blank",
-	"store:name-non-ascii":              "'file-name-safe' does not clearly exclude letters outside ASCII",
+	"store:name-non-ascii":              "'file-name-safe' does not clearly exclude letters or digits outside ASCII (legal, separator-free file names on every platform); the statement does not define the safe set",
 	"store-repeated":                    "no rule about listing a store twice",
 	"no-scopes":                         "the statement has no 'at least one scope' rule",
 	"scope-repeated-in-statement":       "the same scope twice inside ONE statement is still used by one statement",
